@@ -165,6 +165,14 @@ func (h *DefaultHandler) HandleOutgoing(msgType string, handle OutgoingHandlerFu
 
 // ServeIncoming is an internal method for handling incoming messages.
 func (h *DefaultHandler) ServeIncoming(msg []byte) {
+	// A stopped handler takes nothing more: otherwise a peer that keeps sending could keep
+	// Run's final drain of the incoming queue busy forever.
+	select {
+	case <-h.ctx.Done():
+		return
+	default:
+	}
+
 	select {
 	case h.incoming <- msg:
 	case <-h.ctx.Done():
